@@ -514,6 +514,7 @@ pub fn plan(property: &str, tier: &str) -> Option<CheckSpec> {
             g.local_attach = true;
             g.handle_attach = true;
             g.elapsed = true;
+            g.collect_open = true;
             g.busy_wait_us = 150;
             g.max_len = if quick { 5 } else { 7 };
             let n1 = b.add_gen(&g, if quick { 1 } else { 2 }, &[false], &rules, 3_000_000);
@@ -646,7 +647,8 @@ pub fn plan(property: &str, tier: &str) -> Option<CheckSpec> {
         "C16" => {
             let rules = [Rule::Liveness, Rule::NoPanic, Rule::Lazy, Rule::Elapsed, Rule::Ctx, Rule::NoExtra, Rule::Deliver];
             let mut g = GenCfg::base("C16-nonrecording");
-            g.traces = vec![TraceOpt { trace: 0x16A, sampled: true, remote_parent: 0 }];
+            g.traces = vec![TraceOpt { trace: 0x16A, sampled: true, remote_parent: 0 }, TraceOpt { trace: 0x16B, sampled: false, remote_parent: 3 }];
+            g.any_trace_order = true;
             g.max_spans = 3;
             g.max_parents = 2;
             g.dup_parent = true;
